@@ -120,6 +120,8 @@ static const char* schur_case(const mk::Dense<Q> &K, const std::vector<char> &pm
             first = false;
             if (!same(P->P->probed, S)) { vf::fail("schur.operator", key, ctx + " : matrix-free Schur operator (probed with unit vectors) " + show(P->P->probed) + " != " + (c.approx ? "Kpp - Kpu D Kup " : "Kpp - Kpu Kuu^-1 Kup ") + show(S)); }
             else vf::count("schur_operator_checked");
+            if (!P->P->op_mismatch.empty()) vf::fail("schur.operator.coefficients", key, ctx + " : matrix-free Schur operator with general coefficients: " + P->P->op_mismatch + " ; S (probed with alpha=1, beta=0) = " + show(P->P->probed));
+            else if (P->P->op_checks) vf::count("schur_operator_general_coefficients_checked");
         }
         // reference
         std::vector<Q> fu(B.nu), fp(B.np), u, p, want(n);
